@@ -33,6 +33,8 @@ type Ctx struct {
 	Run      uint64 // run index within the check (selects enumerated sub-spaces)
 	Seed     uint64 // check seed
 	Param    string // free parameter carried in replay files (unused by most)
+	// Scratch holds objects a scenario keeps for the duration of ONE run.
+	Scratch map[string]interface{}
 
 	st      *Stats
 	h       uint64
